@@ -269,7 +269,13 @@ func (c *Candidates) Commit(db *iavl.MutableTree, version int64) error {
 		for _, id := range deletedCandidates {
 			if id.isDirty {
 				id.isDirty = false
-				db.IterateRange(append([]byte{mainPrefix}, idBytes(id.ID)...), append([]byte{mainPrefix}, idBytes(id.ID+1)...), true, func(key []byte, value []byte) bool {
+				idPrefix := append([]byte{mainPrefix}, idBytes(id.ID)...)
+				db.IterateRange(idPrefix, append([]byte{mainPrefix}, idBytes(id.ID+1)...), true, func(key []byte, value []byte) bool {
+					// the id is stored little-endian: the range up to id+1 also holds the keys of the
+					// candidates id+256, id+512, ... which must be left alone
+					if !bytes.HasPrefix(key, idPrefix) {
+						return false
+					}
 					if len(key) <= 5 || !(key[5] == stakesPrefix || key[5] == updatesPrefix || key[5] == totalStakePrefix) {
 						return false
 					}
